@@ -31,6 +31,13 @@ FIRST_MISSED = {  # caught only after the extension named here (recorded while t
  "C18-m4": "unusual but legal branch names (trailing blank, ': ') created in the history prefix, followed by commit / reset",
  "C19-m3": "quick tier mutates the first 64 positions of every file completely (the count field of the index header)",
  "C20-m4": "config values whose line crosses 4096 / 8192 bytes",
+ # round 3 (m5/m6)
+ "C02-m6": "branch names that differ only by a trailing blank (`w`, `w `, ` w`) in the pools",
+ "C04-m6": "paths longer than 255 bytes (two long directory components) in the path generator and in the C06 universe",
+ "C06-m5": "rm oracle: overlapping / repeated arguments must succeed too (the tolerance dated from the pinned tree)",
+ "C08-m5": "confusable siblings that are DIRECTORIES (`lib/` next to `lib-old/`)",
+ "C09-m6": "file names that are not valid UTF-8 (`r\\xe9sum\\xe9`, `\\xff`); replay files and driver made safe for such bytes",
+ "C10-m6": "the violation was found but could not be replayed (the step carried a commit id of the generating run): steps now name commits symbolically (`@commit#n`)",
 }
 print("### D.1 Changes written by independent sub-agents (`seeded/<ID>-mN/`)\n")
 print("Each was confirmed with `lib/intake.sh` (demonstration exits 0 on the clean tree; with the patch the tree builds, the unit tests pass, the demonstration exits 1). \"quick check\" is the exit status of the property's quick tier against the patched tree with the final harness.\n")
